@@ -177,6 +177,12 @@ def patterns(w):
     out.append((('cond', ('op', '==', (x, K)), A, Bw), [A, Bw]))
     out.append((('cond', ('op', '+', (x, K)), ('op', '*', (x, x)), A), [A]))
     out.append((A, [A]))
+    # ... also below an operator, before the first wildcard, and in patterns without any wildcard
+    out.append((('op', '+', (('op', '*', (x, x)), A)), [A]))
+    out.append((('op', '^', (('op', '+', (x, K)), ('op', '-', (x,)), A)), [A]))
+    out.append((('op', '&', (('cond', ('id', 'z1', 1), x, K), A)), [A]))
+    out.append((('op', '+', (('op', '*', (x, x)), K)), []))
+    out.append((('op', '-', (('op', '+', (x, K)), ('op', '*', (A, x)))), [A]))
     if w >= 8:
         out.append((('mem', P32, w), [P32]))
         out.append((('mem', ('op', '+', (P32, ('int', 32, 0x10))), w), [P32]))
@@ -244,6 +250,36 @@ def mutations(e):
         for mx in mutations(e[2])[:1]: out.append(('cond', e[1], mx, e[3]))
     return out
 
+def wild_mutations(e, W, limit=6):
+    """e with one leaf replaced by a wildcard identifier itself (the matched expression may contain the pattern's own wildcard names)"""
+    out = []
+    def leaves(d, path):
+        k = d[0]
+        if k in ('id', 'int'): yield path
+        elif k == 'mem': yield from leaves(d[1], path + (1,))
+        elif k == 'smem': yield from leaves(d[2], path + (2,))
+        elif k == 'op':
+            for i, x in enumerate(d[2]): yield from leaves(x, path + (2, i))
+        elif k == 'slice': yield from leaves(d[1], path + (1,))
+        elif k == 'compose':
+            for i, (x, lo, hi) in enumerate(d[1]): yield from leaves(x, path + (1, i, 0))
+        elif k == 'cond':
+            for i in (1, 2, 3): yield from leaves(d[i], path + (i,))
+    def put(d, path, v):
+        if not path: return v
+        i = path[0]
+        return d[:i] + (put(d[i], path[1:], v),) + d[i + 1:]
+    def get(d, path):
+        for i in path: d = d[i]
+        return d
+    for path in list(leaves(e, ()))[:limit]:
+        old = get(e, path)
+        for wv in W:
+            from bounded import gen
+            if gen.dwidth(old) == wv[2] and old != wv:
+                out.append(put(e, path, wv))
+    return out
+
 def is_instance(e, p, W, B=None):
     """reference matcher on descriptions: returns binding dict or None"""
     B = {} if B is None else B
@@ -300,12 +336,15 @@ def check_match(ed, pd, W, expect, history=()):
         fails.append(('match.accept', 'MatchExpr(%s, %s, wildcards %s) fails although %s is the pattern under {%s}' % (
             dstr(ed), dstr(pd), [w[1] for w in W], dstr(ed), ', '.join('%s: %s' % (k[1], dstr(v)) for k, v in expect.items())), _args))
         return fails
+    if not isinstance(r, dict):
+        fails.append(('match.sound', 'MatchExpr(%s, %s, wildcards %s) returned %r, not a table of bindings' % (dstr(ed), dstr(pd), [w[1] for w in W], r), _args))
+        return fails
     got = dict((undesc(k), undesc(v)) for k, v in r.items())
     if subst_desc(pd, got) != ed:
         fails.append(('match.sound', 'MatchExpr(%s, %s) returned %s; substituting it into the pattern gives %s' % (
             dstr(ed), dstr(pd), dict((dstr(k), dstr(v)) for k, v in got.items()), dstr(subst_desc(pd, got))), _args))
     for wv, val in expect.items():
-        if got.get(wv) != val:
+        if got.get(wv, wv) != val:          # a wildcard left unbound stands for itself (substitution leaves it in place)
             fails.append(('match.binding', 'wildcard %s bound to %s, expected %s' % (wv[1], got.get(wv) and dstr(got.get(wv)), dstr(val)), _args))
     return fails
 
@@ -330,7 +369,7 @@ def law_match(w, rng, n_bind):
             n += 1
             fails += check_match(ed2, pd, W, is_instance(ed2, pd, set(W)), [prev])
             prev = (ed2, pd, W)
-            for md in mutations(ed):
+            for md in mutations(ed) + (wild_mutations(ed, W) if t == 0 else []):
                 exp = is_instance(md, pd, set(W))
                 n += 1
                 fails += check_match(md, pd, W, exp, [prev])
